@@ -26,7 +26,7 @@ def main():
         head = sh('git -C /repo rev-parse --short HEAD')[1].strip()
         cfg = 'cmake -G Ninja -B _build -DCMAKE_BUILD_TYPE=RelWithDebInfo -DCMAKE_C_FLAGS=-Wno-error -DOPUS_BUILD_TESTING=ON >/dev/null && cmake --build _build 2>&1 | tail -3'
         rc, out = sh(cfg, cwd=wt); assert rc == 0, out
-        d = os.path.join(wt, 'mutation'); shutil.copytree(pend, d)
+        d = os.path.join(wt, 'mutation', 'X'); shutil.copytree(pend, d)   # two levels deep: some build scripts use ../..
         for f in os.listdir(d):
             if f == 'demo' or f.endswith('.o'):
                 os.remove(os.path.join(d, f))
@@ -39,7 +39,7 @@ def main():
         rc, out = sh('sh ./build_demo.sh', cwd=d); assert rc == 0, 'demo build (clean) failed: ' + out
         rc0, out0 = sh('./demo', cwd=d, timeout=900)
         log['demo_clean_exit'] = rc0; log['demo_clean_tail'] = out0[-600:]
-        rc, out = sh('git apply --3way mutation/patch.diff || git apply mutation/patch.diff', cwd=wt)
+        rc, out = sh('git apply --3way mutation/X/patch.diff || git apply mutation/X/patch.diff', cwd=wt)
         assert rc == 0, 'patch does not apply: ' + out
         log['patch_stat'] = sh('git diff --stat', cwd=wt)[1].strip()
         rc, out = sh('cmake --build _build 2>&1 | tail -3', cwd=wt); assert rc == 0, out
